@@ -338,6 +338,15 @@ type Verdict struct {
 	// extensions must be exactly ExpectExt (what the hook returned).
 	ExtExact  bool
 	ExpectExt []Option
+	// HTTP2ToHTTPUpgrader: a request whose major version is not 1 given to
+	// ws.HTTPUpgrader (must-fail 505 by "HTTP/1.1 (or a later 1.x)"); the
+	// predicate of finding C09/httpupgrader-accepts-http2-version.
+	HTTP2ToHTTPUpgrader bool
+	// HTInList: a Connection value, or a Sec-WebSocket-Protocol /
+	// Sec-WebSocket-Extensions value the configuration looks at, is a plain
+	// list with an HT next to a separator; the predicate of finding
+	// C09/ht-inside-list-not-whitespace.
+	HTInList bool
 	// ExtLines describes each Sec-WebSocket-Extensions line in order: "fail"
 	// (a plain option list in which the negotiator objects to an offer), "ok"
 	// (plain list, no objection) or "odd" (not a plain option list).
@@ -398,18 +407,14 @@ func classifyValue(h HeaderID, v string) valueClass {
 		if asciiEqualFold(v, "websocket") {
 			return vGood
 		}
-		// lists: the statement says "Upgrade: websocket", RFC 7230 allows a list
-		if strings.IndexByte(v, ',') >= 0 {
-			return vOpen
-		}
-		// anything else is not the websocket token, including values that
-		// only match under Unicode folding (see UnicodeFoldUpgrade)
+		// "Upgrade: websocket": anything else is not that value - lists
+		// ("websocket, h2c"), and values that only match under Unicode
+		// folding (see UnicodeFoldUpgrade)
 		return vBad
 	case HConnection:
-		if v == "" {
-			return vBad
-		}
-		toks, strict := StrictTokens(v)
+		// "a Connection header containing the upgrade token": a comma list,
+		// blanks (SP/HT) around the members ignored, empty members ignored
+		toks, strict := ListTokens(v)
 		if !strict {
 			return vOpen
 		}
@@ -499,11 +504,6 @@ func Classify(r *Request, c *Config) Verdict {
 		v.LineParsed = false
 		open("odd request target")
 	}
-	if strings.ContainsAny(r.Target, " \t\r\n") || r.Target == "" {
-		// classified above
-	} else if c.Kind == HTTP && IsAbsoluteTarget(r.Target) {
-		open("absolute-URI target (net/http takes Host from it)")
-	}
 	if r.NoVersion {
 		v.LineParsed = false
 		wrong("no version token", 400)
@@ -517,19 +517,15 @@ func Classify(r *Request, c *Config) Verdict {
 			open("version with leading zeros")
 		case VersionMajorNotOne:
 			v.LineParsed = false
-			if c.Kind == HTTP {
-				open("HTTP/2+ request given to HTTPUpgrader")
-			} else {
-				wrong(fmt.Sprintf("version %q: the major number is not 1", r.Version), 400, 505)
-			}
+			v.HTTP2ToHTTPUpgrader = c.Kind == HTTP
+			wrong(fmt.Sprintf("version %q: the major number is not 1", r.Version), 400, 505)
 		case VersionHuge:
 			v.LineParsed = false
-			open("version number of more than 9 digits")
+			open("minor version number of more than 18 digits")
 		default:
-			switch {
-			case major >= 2 && c.Kind == HTTP:
-				open("HTTP/2+ request given to HTTPUpgrader")
-			case major != 1 || minor < 1:
+			if major != 1 || minor < 1 {
+				// "HTTP/1.1 (or a later 1.x)", for both upgraders
+				v.HTTP2ToHTTPUpgrader = c.Kind == HTTP && major >= 2
 				wrong("version "+r.Version, 505)
 			}
 		}
@@ -559,7 +555,11 @@ func Classify(r *Request, c *Config) Verdict {
 			}
 			continue
 		}
-		if !IsToken(l.Name) || strings.Trim(l.Lead, " \t") != "" {
+		lname := l.Name
+		if c.Kind == Raw { // "header names ... surrounding blanks ignored"; net/http refuses a blank before the colon itself
+			lname = strings.TrimRight(lname, " \t")
+		}
+		if !IsToken(lname) || strings.Trim(l.Lead, " \t") != "" {
 			open("odd header line")
 			continue
 		}
@@ -572,7 +572,7 @@ func Classify(r *Request, c *Config) Verdict {
 		}
 		known := false
 		for h := HeaderID(0); h < NumRequired; h++ {
-			if asciiEqualFold(l.Name, RequiredNames[h]) {
+			if asciiEqualFold(lname, RequiredNames[h]) {
 				k := classifyValue(h, val)
 				if oddValue {
 					k = vOpen
@@ -580,6 +580,9 @@ func Classify(r *Request, c *Config) Verdict {
 				copies[h] = append(copies[h], k)
 				if h == HKey && len(val) == 24 {
 					v.Keys = append(v.Keys, val)
+				}
+				if h == HConnection && k == vGood && HasInnerHT(val) {
+					v.HTInList = true
 				}
 				if h == HUpgrade && IsUnicodeFoldOnly(val, "websocket") {
 					v.UnicodeFoldUpgrade = true
@@ -589,9 +592,9 @@ func Classify(r *Request, c *Config) Verdict {
 		}
 		switch {
 		case known:
-		case asciiEqualFold(l.Name, NameProtocol):
+		case asciiEqualFold(lname, NameProtocol):
 			protoVals = append(protoVals, val)
-		case asciiEqualFold(l.Name, NameExtensions):
+		case asciiEqualFold(lname, NameExtensions):
 			extVals = append(extVals, val)
 		default:
 			extra = true
@@ -610,8 +613,12 @@ func Classify(r *Request, c *Config) Verdict {
 			}
 		}
 		name := RequiredNames[h]
-		if h == HHost && c.Kind == HTTP && IsAbsoluteTarget(r.Target) {
-			continue // already open: net/http takes the host from the target
+		if h == HHost && c.Kind == HTTP && IsAbsoluteTarget(r.Target) && (len(copies[h]) == 0 || bad+op > 0) {
+			// HTTPUpgrader's request is the *http.Request, whose Host net/http
+			// fills from an absolute-URI target: without a usable Host header
+			// line "carrying Host" is not decided
+			open("absolute-URI target without a Host line (net/http takes Host from the target)")
+			continue
 		}
 		switch {
 		case len(copies[h]) == 0:
@@ -648,8 +655,11 @@ func Classify(r *Request, c *Config) Verdict {
 		}
 	} else if c.HasProtocol {
 		for _, pv := range protoVals {
-			toks, strict := StrictTokens(pv)
-			if !strict {
+			toks, strict := ListTokens(pv)
+			if strict && len(toks) > 0 && HasInnerHT(pv) {
+				v.HTInList = true
+			}
+			if !strict || len(toks) == 0 {
 				v.ProtocolKnown = false
 				open("Sec-WebSocket-Protocol value is not a plain token list")
 				statuses[400] = true
@@ -672,7 +682,10 @@ func Classify(r *Request, c *Config) Verdict {
 	// ---- extensions
 	v.OffersKnown = true
 	for _, ev := range extVals {
-		opts, strict := StrictOptions(ev)
+		opts, strict := ListOptions(ev)
+		if strict && HasInnerHT(ev) && (c.extMode() == ExtSelector || c.extMode() == ExtNegotiate) {
+			v.HTInList = true
+		}
 		kind := "ok"
 		if !strict {
 			v.OffersKnown = false
